@@ -1,4 +1,4 @@
 INIT Init
 NEXT Next
-INVARIANTS RemovesExactly Monotone ShorthandMeaning Emit
+INVARIANTS RemovesExactly Monotone ShorthandMeaning OutsideIgnoresProjectFlags Emit
 CHECK_DEADLOCK FALSE
